@@ -312,6 +312,60 @@ pub fn run(ctx: &Ctx, part: &str) -> i32 {
             check_case(ctx, "real-threshold", idx, &scfg, kind, storage, &plan, rng);
         });
     }
+    if part.is_empty() || part == "main" {
+        // library defaults: Sorter::new / Sorter::builder(..).build() (1 GiB budget, temp-file chunks)
+        let n = ctx.n(40, 400);
+        ctx.par("defaults", n, true, |idx, rng| {
+            let kind = pick_kind(rng, true);
+            let uni = *rng.pick(&[1usize, 7, 300]);
+            let count = rng.range(0, 3000);
+            let plan = gen_inserts(rng, count, uni, 50, kind == MergeKind::Concat, None);
+            let r = crate::verdict::guarded(|| -> Result<Vec<Entry>, String> {
+                let mf = MonMerge::with_plan(kind, None);
+                let mut sorter = if idx % 2 == 0 { grenad::Sorter::new(mf) } else { grenad::Sorter::builder(mf).build() };
+                for (k, v) in &plan.inserts {
+                    sorter.insert(k, v).map_err(|e| format!("insert: {}", e))?;
+                }
+                let mut out = Vec::new();
+                match idx % 3 {
+                    0 => {
+                        let mut it = sorter.into_stream_merger_iter().map_err(|e| format!("into_stream_merger_iter: {}", e))?;
+                        while let Some((k, v)) = it.next().map_err(|e| format!("next: {}", e))? {
+                            out.push((k.to_vec(), v.to_vec()));
+                        }
+                    }
+                    1 => {
+                        let mut w = grenad::Writer::memory();
+                        sorter.write_into_stream_writer(&mut w).map_err(|e| format!("write_into_stream_writer: {}", e))?;
+                        let bytes = w.into_inner().map_err(|e| e.to_string())?;
+                        out = read_back(&bytes, plan.inserts.len() + 2)?;
+                    }
+                    _ => {
+                        let cursors = sorter.into_reader_cursors().map_err(|e| format!("into_reader_cursors: {}", e))?;
+                        let mut b = grenad::Merger::builder(MonMerge::with_plan(kind, None));
+                        b.extend(cursors);
+                        let mut it = b.build().into_stream_merger_iter().map_err(|e| format!("merger: {}", e))?;
+                        while let Some((k, v)) = it.next().map_err(|e| format!("next: {}", e))? {
+                            out.push((k.to_vec(), v.to_vec()));
+                        }
+                    }
+                }
+                Ok(out)
+            });
+            ctx.count("default_configuration_runs", 1);
+            let detail = |what: &str, obs: String| J::obj().set("sorter", "library defaults (Sorter::new / Sorter::builder().build())").set("merge_function", kind.name()).set("n_inserts", plan.inserts.len()).set("first_inserts", gen::render_entries(&plan.inserts, 6)).set("what", what).set("observed", obs);
+            match r {
+                Ok(Ok(out)) => {
+                    if let Err((sig, obs)) = judge(kind, true, &plan.model, &out) {
+                        ctx.violation(&sig, "defaults", idx, detail("sorter output differs from sort-and-merge of the inserts", obs));
+                    }
+                }
+                Ok(Err(e)) => ctx.violation("sorter-failed", "defaults", idx, detail("sorter failed with working components", e)),
+                Err(p) => ctx.violation("sorter-failed", "defaults", idx, detail("sorter panicked", p)),
+            }
+            ctx.eval(crate::prng::mix(&[idx, 0xDEF, plan.inserts.len() as u64]), false);
+        });
+    }
     if ctx.only.is_none() && (part.is_empty() || part == "main") {
         ctx.obligation("runs with >= 1 spill", ctx.counter("runs_with_spill") > 0);
         ctx.obligation("runs with >= 2 chunk merges", ctx.counter("runs_with_2+_chunk_merges") > 0);
